@@ -231,6 +231,29 @@ theorem lexDocument_declaration (d : Declaration) (ts : List Token) (h : LexOK f
   rw [e0, lexLoop_token _ hne (by simp) step1, lexLoop_skip _ rfl (by simp) step2,
     lexLoop_render false ts .prolog _ _ ⟨rfl, rfl, .inr (.inl rfl)⟩ h.1 h.2 rfl]
 
+/-- The declaration token, then whatever the tokenizer makes of the rest (from `AfterDeclaration`, standing
+    at the line feed the writer appends). -/
+theorem lexDocument_declaration_then (d : Declaration) (r : Str)
+    (henc : ∀ e, d.encoding = some e → e.all encChar = true) :
+    ∃ v e sa sp q, lexDocument (d.bytes ++ r) =
+      (.declaration ⟨['1', '.', '0'], v⟩ e sa sp ::
+          (lexLoop ⟨⟨q, '\n' :: r⟩, .afterDeclaration, 0, false⟩ q).1,
+        (lexLoop ⟨⟨q, '\n' :: r⟩, .afterDeclaration, 0, false⟩ q).2) := by
+  obtain ⟨v, e, sa, sp, q, hp⟩ := parseDeclaration_written d r henc
+  obtain ⟨x, hx⟩ := bytes_head d r
+  refine ⟨v, e, sa, sp, q, ?_⟩
+  have hb : ((Stream.ofStr (d.bytes ++ r)).curr? == some '\uFEFF') = false := by rw [hx]; rfl
+  have e0 : Tokenizer.ofStr (d.bytes ++ r) = ⟨⟨0, d.bytes ++ r⟩, .declaration, 0, false⟩ := by
+    simp only [Tokenizer.ofStr, hb, Bool.false_eq_true, if_false]; rfl
+  have hne : (Stream.mk 0 (d.bytes ++ r)).atEnd = false := by rw [hx]; rfl
+  have hsw : (Stream.mk 0 (d.bytes ++ r)).startsWith litXmlDecl = true := by
+    rw [hx]; simp only [startsWith]; rw [List.isPrefixOf_iff_prefix]; exact List.prefix_append _ _
+  have step1 : parseNextImpl ⟨⟨0, d.bytes ++ r⟩, .declaration, 0, false⟩ =
+      .token (.declaration ⟨['1', '.', '0'], v⟩ e sa sp) ⟨⟨q, '\n' :: r⟩, .afterDeclaration, 0, false⟩ := by
+    simp only [parseNextImpl, hne, Bool.false_eq_true, if_false, hsw, if_true, hp, Step.ofParse]
+  unfold lexDocument
+  rw [e0, lexLoop_token _ hne (by simp) step1]
+
 /-- The tokens read back are the given ones up to byte positions, after one declaration token. -/
 theorem lexDocument_declaration_erase (d : Declaration) (ts : List Token) (h : LexOK false ts = true)
     (henc : ∀ e, d.encoding = some e → e.all encChar = true) :
